@@ -307,6 +307,16 @@ Abort ==
   /\ l' = l + 1
   /\ UNCHANGED <<committed, ccaps, mapfull>>
 
+\* a build that neither returned nor polled the cancellation callback for the watchdog period:
+\* the harness wrote the trace up to there and stopped
+Hang ==
+  /\ IsEv("Hang")
+  /\ Report("VIOL", [h |-> Rec[l].h, k |-> Rec[l].k, ev |-> "Hang"],
+            {<<"C14", "build_did_not_return">>, <<"C01", "build_did_not_return">>, <<"C20", "build_did_not_return">>,
+             <<"C10", "build_did_not_return">>})
+  /\ l' = l + 1
+  /\ UNCHANGED <<cur, committed, caps, ccaps, mapfull>>
+
 TraceInit ==
   /\ l = 1
   /\ cur = <<>> /\ committed = <<>> /\ caps = <<>> /\ ccaps = <<>> /\ mapfull = FALSE
@@ -314,7 +324,7 @@ TraceInit ==
 TraceNext ==
   \/ Reset
   \/ AddLike("Add") \/ AddLike("Append")
-  \/ Del \/ AddMany \/ DelMany \/ Clear \/ ChangeMetric \/ Build \/ SearchEv \/ Commit \/ Abort
+  \/ Del \/ AddMany \/ DelMany \/ Clear \/ ChangeMetric \/ Build \/ SearchEv \/ Commit \/ Abort \/ Hang
 
 TraceSpec == TraceInit /\ [][TraceNext]_tvars
 
